@@ -120,6 +120,55 @@ def guarded_class():
     return Guarded
 
 
+def ac_classes():
+    """Second configuration: security.RestrictedDTML with AccessControl's
+    own policy; refusals are declared with <name>__roles__ = ()."""
+    if 'AC' in _CLS:
+        return _CLS['AC']
+    from AccessControl.SecurityManagement import getSecurityManager
+    from DocumentTemplate import HTML
+    from DocumentTemplate.security import RestrictedDTML
+    from ExtensionClass import Base
+
+    class UnownedDTML(RestrictedDTML, HTML):
+        def getOwner(self):
+            return None
+
+        def __call__(self, client=None, REQUEST={}, RESPONSE=None, **kw):
+            security = getSecurityManager()
+            security.addContext(self)
+            try:
+                return HTML.__call__(self, client, REQUEST, **kw)
+            finally:
+                security.removeContext(self)
+
+    class AP(Base):
+        """Public object whose plain attribute values are accessible."""
+        __roles__ = None
+        __allow_access_to_unprotected_subobjects__ = 1
+
+        def __init__(self, i, **kw):
+            self.i = i
+            self.__dict__.update(kw)
+
+        def __repr__(self):
+            return '<P%d>' % self.i
+
+    _CLS['AC'] = (UnownedDTML, AP, {})
+    return _CLS['AC']
+
+
+def ac_object(i, denied_names, **kw):
+    U, AP, cache = ac_classes()
+    key = tuple(sorted(denied_names))
+    cls = cache.get(key)
+    if cls is None:
+        cls = type('AP_' + '_'.join(key), (AP,),
+                   {n + '__roles__': () for n in key})
+        cache[key] = cls
+    return cls(i, **kw)
+
+
 def secret(run, tag, numeric=False, order=0):
     if numeric:
         return (100 if run == 'A' else 7000) + order * (1 if run == 'A'
@@ -127,13 +176,14 @@ def secret(run, tag, numeric=False, order=0):
     return 'SECRET-%s-%s' % (run, tag)
 
 
-def objects(run, n=4, numeric=False):
+def objects(run, n=4, numeric=False, make=None):
     """n client objects; 'sec' / '_prv' differ between the two runs (also in
     relative order, so that a sort by them differs)."""
     out = []
+    make = make or (lambda i, **kw: P(i, **kw))
     for i in range(n):
         order = i if run == 'A' else (n - i) * 3 % 7
-        out.append(P(
+        out.append(make(
             i, pub='PUB%d' % i, idn=i,
             sec=secret(run, 's%d' % i, numeric, order)
             if numeric else ('%d-' % order) + secret(run, 's%d' % i),
@@ -297,11 +347,19 @@ def render(ch, attr, policy, run, guarded=True, index=0):
     from DocumentTemplate import HTML
     cls = G if guarded else HTML
     numeric = ch.get('numeric', False)
-    objs = objects(run, numeric=numeric)
+    make = None
+    if guarded == 'ac':
+        cls = ac_classes()[0]
+        deny = policy.get('attr', ())
+
+        def make(i, **kw):
+            names = [n for (who, n) in deny if who == '*' or who == i]
+            return ac_object(i, names, **kw)
+    objs = objects(run, numeric=numeric, make=make)
     src = ch['src'].replace('{A}', attr).replace('{I}', str(index))
     t = cls(src)
     log = []
-    if guarded:
+    if guarded is True:
         t.log = log
         t.deny_attr = frozenset(tuple(x) for x in policy.get('attr', ()))
         t.deny_item = frozenset(tuple(x) for x in policy.get('item', ()))
@@ -315,7 +373,7 @@ def render(ch, attr, policy, run, guarded=True, index=0):
         ns['root'] = tree_nodes(run)
     if ch.get('sub'):
         sub = cls(ch['sub'].replace('{A}', attr))
-        if guarded:
+        if guarded is True:
             sub.log, sub.deny_attr, sub.deny_item = log, t.deny_attr, \
                 t.deny_item
         ns['sub'] = sub
@@ -343,7 +401,8 @@ def check(case):
     b, log_b = render(ch, attr, policy, 'B', guarded, idx)
     name = ch['name']
     group = 'statistics' if name.startswith('statistics') else name
-    mode = 'guarded' if guarded else 'unguarded'
+    mode = 'ac' if guarded == 'ac' else (
+        'guarded' if guarded else 'unguarded')
     klass = case['klass']
     # refused data must not be observable
     if klass in ('denied', 'underscore', 'denied-item'):
@@ -399,6 +458,11 @@ def cases():
                         pol = dict(attr=[[1, attr], [4, attr]])
                     yield dict(channel=ch['name'], attr=attr, policy=pol,
                                guarded=True, klass=klass)
+                    if not ch.get('tree') and not ch.get('psub') and \
+                            attr not in ('meth', 'secmeth'):
+                        # same case under RestrictedDTML + AccessControl
+                        yield dict(channel=ch['name'], attr=attr,
+                                   policy=pol, guarded='ac', klass=klass)
                 # the underscore rule holds without any guard, too
                 if klass == 'underscore' and not ch.get('expr') and \
                         'getattr' not in ch['name'] and \
@@ -514,7 +578,9 @@ def run_shard(shard):
         acc.case(case, case['klass'] != 'public',
                  klass=['class:' + case['klass'],
                         'channel:' + case['channel'],
-                        'guarded' if case['guarded'] else 'unguarded'],
+                        'ac' if case['guarded'] == 'ac' else (
+                            'guarded' if case['guarded'] else
+                            'unguarded')],
                  distinct_by_construction=True)
         if bad:
             acc.fail(bad[0], case, bad[1])
